@@ -30,7 +30,7 @@ inductive EngineState where
   | trio (s : WW.Trio.St)
   | registry (s : FacState)
   | incentive (d : Driver.Incentive.DSt)
-  | pair (s : WW.Pair.St)
+  | pair (cv : WW.Pair.Curve) (s : WW.Pair.St)
 
 /-- `init <engine> k=v …` : select the engine and build its initial state; prints the first observation -/
 def initLine (ws : List String) : EngineState × String :=
@@ -81,10 +81,11 @@ def initLine (ws : List String) : EngineState × String :=
     | (some d, o) => (.incentive d, o)
     | (none, o) => (.none, o)
   | "pair" :: rest =>
-    match Driver.PairD.initLine rest with
-    | some (some s) => (.pair s, "ok " ++ Driver.PairD.obs s)
-    | some none => (.none, "err")
-    | none => (.none, "bad-op")
+    match Driver.PairD.initLine rest, Driver.PairD.curveOf rest with
+    | some (some s), some (some cv) => (.pair cv s, "ok " ++ Driver.PairD.obs s)
+    | none, _ => (.none, "bad-op")
+    | _, none => (.none, "bad-op")
+    | _, _ => (.none, "err")
   | _ => (.none, "bad-op")
 
 /-- an operation line for the currently selected engine -/
@@ -102,7 +103,7 @@ def opLine (st : EngineState) (ws : List String) : EngineState × String :=
   | .trio s => let (s', o) := Driver.Trio.opLine s ws; (.trio s', o)
   | .registry s => let (s', o) := facOp s ws; (.registry s', o)
   | .incentive d => let (d', o) := Driver.Incentive.opLine d ws; (.incentive d', o)
-  | .pair s => let (s', o) := Driver.PairD.opLine s ws; (.pair s', o)
+  | .pair cv s => let (s', o) := Driver.PairD.opLine cv s ws; (.pair cv s', o)
 
 def stepLine (st : EngineState) (line : String) : EngineState × Option String :=
   match words line with
